@@ -3,6 +3,7 @@ import DW.Sexp
 import DW.Message
 import DW.Probe
 import DW.Stage1
+import DW.Typing
 
 /-!
 # Driver: one request per line on stdin, one answer per line on stdout
@@ -20,6 +21,15 @@ def expandLine (c : Cfg) (raw : RawItem) : String :=
     impls.foldl (fun acc (t, ims) =>
       acc ++ " @@ " ++ t.trait.asStr ++ " " ++ joinToks (ims.flatMap (Impl.toks inp))) "ok"
   | .error e => if e.isPanic then "panic " ++ e.message c else "err " ++ e.message c
+
+/-- `typeq <cfg> <item>`: the model's static type checker on every generated method. -/
+def typeLine (c : Cfg) (raw : RawItem) : String :=
+  match deriveWhere c raw with
+  | .ok (inp, impls) =>
+    impls.foldl (fun acc (t, ims) =>
+      acc ++ " @@ " ++ t.trait.asStr ++ " " ++
+        (if ims.all fun im => im.methods.all (Method'.wellTyped inp.item) then "well-typed" else "ILL-TYPED")) "ok"
+  | .error e => if e.isPanic then "panic" else "err"
 
 def handleSpec (line : String) : String :=
   match line.splitOn " ## " with
@@ -69,6 +79,7 @@ def handle (line : String) : String :=
       | some raw =>
         match cmd with
         | "expand" => expandLine c raw
+        | "typeq" => typeLine c raw
         | _ => "bad-cmd"
       | none => "bad-item"
     | _, _ => "bad-request"
